@@ -638,6 +638,25 @@ SLOTS.update({
     ('Global', 'none'): ('x = a', V),
 })
 del SLOTS[('Global', 'none')]
+_PCX = [('body', 0), ('cases', 0), ('pattern', None)]
+# expressions INSIDE patterns (dotted names, mapping keys, class names): they cannot carry grouping parentheses of their own
+SLOTS.update({
+    ('Attribute', 'value@MatchValue'): ('match s:\n    case a.b:\n        pass', _PCX + [('value', None), ('value', None)]),
+    ('Attribute', 'value@MatchValue-or'): ('match s:\n    case a.b | c:\n        pass', _PCX + [('patterns', 0), ('value', None), ('value', None)]),
+    ('Attribute', 'value@MatchValue-as'): ('match s:\n    case a.b.c as z:\n        pass', _PCX + [('pattern', None), ('value', None), ('value', None)]),
+    ('Attribute', 'value@MatchValue-seq'): ('match s:\n    case a.b, 2:\n        pass', _PCX + [('patterns', 0), ('value', None), ('value', None)]),
+    ('Attribute', 'value@MatchValue-pars'): ('match s:\n    case (a.b):\n        pass', _PCX + [('value', None), ('value', None)]),
+    ('Attribute', 'value@MatchValue-list'): ('match s:\n    case [a.b, 2]:\n        pass', _PCX + [('patterns', 0), ('value', None), ('value', None)]),
+    ('Attribute', 'value@MatchMapping-key'): ('match s:\n    case {a.b: 1}:\n        pass', _PCX + [('keys', 0), ('value', None)]),
+    ('Attribute', 'value@MatchClass-cls'): ('match s:\n    case a.b(x):\n        pass', _PCX + [('cls', None), ('value', None)]),
+    ('Attribute', 'value@MatchClass-arg'): ('match s:\n    case C(a.b, k=c.d):\n        pass', _PCX + [('kwd_patterns', 0), ('value', None), ('value', None)]),
+    ('MatchClass', 'cls'): ('match s:\n    case C(x):\n        pass', _PCX + [('cls', None)]),
+    ('MatchClass', 'cls@or'): ('match s:\n    case C(x) | 2:\n        pass', _PCX + [('patterns', 0), ('cls', None)]),
+    ('MatchValue', 'value'): ('match s:\n    case a.b:\n        pass', _PCX + [('value', None)]),
+    ('MatchValue', 'value@as'): ('match s:\n    case a.b as z:\n        pass', _PCX + [('pattern', None), ('value', None)]),
+    ('MatchMapping', 'keys'): ('match s:\n    case {1: u, a.b: v}:\n        pass', _PCX + [('keys', 1)]),
+    ('MatchMapping', 'keys@bare-seq'): ('match s:\n    case {a.b: v}, 2:\n        pass', _PCX + [('patterns', 0), ('keys', 0)]),
+})
 PC = [('body', 0), ('cases', 0), ('pattern', None)]
 PAT_SLOTS = {
     ('MatchAs', 'pattern'): ('match s:\n    case 1 as z:\n        pass', PC + [('pattern', None)]),
@@ -681,7 +700,7 @@ PAT_CHILDREN = {'MatchValue': '7', 'MatchSingleton': 'None', 'MatchAsName': 'zz'
                 'MatchAsPars': '(p) as q', 'MatchOrBrEnds': '[p] | [q]',
                 'MatchSequenceMb': 'é, ü', 'MatchOrMb': '"é" | "ü"', 'MatchAsMb': 'é as ü', 'MatchClassMb': 'É(ü)', 'MatchValueMb': '"é"'}
 
-LAYOUTS = ['bare', 'pars', 'multi_pars', 'multi_cont', 'comment', 'comment_bs']
+LAYOUTS = ['bare', 'pars', 'multi_pars', 'multi_cont', 'comment', 'comment_bs', 'multi_bare']
 
 
 def layout(src, how, is_tuple_like):
@@ -690,6 +709,14 @@ def layout(src, how, is_tuple_like):
         return src
     if how == 'pars':
         return f'({src})' if not src.startswith('*') else None
+    if how == 'multi_bare':     # code that spans lines WITHOUT enclosure of its own (legal as code to put: the put must enclose it, or refuse
+        if src.startswith('*') or src.startswith('yield') or src.startswith('await') or src.startswith('lambda') or src.startswith('not '):
+            return None         # where the slot cannot take parentheses, e.g. an expression inside a pattern)
+        if ' ' in src:
+            return src.replace(' ', '\n  ', 1)
+        if '.' in src and not src[0].isdigit() and src != '...':
+            return src.replace('.', '\n  .', 1)
+        return None
     toks = src.split(' ')
     if len(toks) < 3:
         return None
@@ -861,7 +888,7 @@ def replace_jobs(ctx, full):
             for ck, csrc in kids.items():
                 combos = [(l, f) for l in LAYOUTS for f in ('src', 'ast', 'fst')]
                 if not full:
-                    combos = [('bare', 'src')] + rng.sample(combos[1:], 2)
+                    combos = [('bare', 'src'), ('multi_bare', 'src')] + rng.sample(combos[1:], 2)
                 for lay, form in combos:
                     if form == 'ast' and lay != 'bare':
                         continue
